@@ -325,6 +325,10 @@ def check(ctx):
     with ctx.shared({"C04.R4": ("C13.R6", "a PDU that rtr_receive_pdu refused (wrong version included) is never looked at by its callers: no type "
                                 "dispatch on the buffer after a negative result")}):
         C04.r4(ctx, retsets)
+    from specs import C14
+    with ctx.shared({"C14.R8": ("C13.R7", "the error code of a received Error Report is read in host byte order (the two bytes after the type are "
+                                "converted for every PDU type but Router Key), so 'Unsupported Protocol Version' is recognised and triggers the downgrade")}):
+        C14.r8(ctx)
 
 
 PK = "rtrlib/rtr/packets.c"
